@@ -170,6 +170,13 @@ func (e *Evidence) Violation(key, what string, replay any) {
 	b, _ := json.MarshalIndent(map[string]any{"property": e.PropertyID, "key": key, "what": what, "seed": e.Seed, "tier": e.Tier, "replay": replay}, "", " ")
 	_ = os.WriteFile(p, b, 0o644)
 	fmt.Printf("VIOLATION property=%s replay=%s key=%s %s\n", e.PropertyID, p, key, what)
+	// make logs self-contained: the replay (compact, truncated) right after the verdict line
+	if cb, err := json.Marshal(replay); err == nil {
+		if len(cb) > 6000 {
+			cb = append(cb[:6000], []byte("...(truncated)")...)
+		}
+		fmt.Printf("REPLAY %s\n", cb)
+	}
 }
 
 // Inconclusive records a run that could not be decided (TLC crash, dead driver).
